@@ -674,11 +674,16 @@ fn handle(st: &mut State, req: &J) -> J {
             let h = match get_h(st, req) { Ok(h) => h, Err(e) => return e };
             let bc = &st.progs[h].bytecode;
             let pairs = req.get("pairs").and_then(|p| p.as_array()).cloned().unwrap_or_default();
+            let overlap = req.get("mode").and_then(|m| m.as_str()) == Some("overlap");
             let mut out = Vec::new();
             for p in pairs {
                 let a = p.get(0).and_then(|x| x.as_u64()).unwrap_or(0) as usize;
                 let b = p.get(1).and_then(|x| x.as_u64()).unwrap_or(0) as usize;
-                out.push(quiver_core::types::is_compatible(a, b, bc));
+                if overlap {
+                    out.push(quiver_core::types::types_overlap(a, b, bc));
+                } else {
+                    out.push(quiver_core::types::is_compatible(a, b, bc));
+                }
             }
             json!({"ok": true, "results": out})
         }
